@@ -255,7 +255,7 @@ func checkC15(cfg *core.Config) int {
 		}
 		for _, fn := range funcs[id] {
 			if strings.HasPrefix(fn, "rand") {
-				o := map[string]string{"funcs": fn}
+				o := map[string]string{"funcs": fn, "recursive-types": "1"}
 				for k, v := range opts {
 					o[k] = v
 				}
@@ -286,6 +286,9 @@ func checkC15(cfg *core.Config) int {
 			rep.Violate(core.Violation{Signature: sig, Case: e.Prog, Files: files, Message: fmt.Sprintf("calling %s() aborted the process (does not terminate): %s", e.What, core.Trunc(e.Message, 800))})
 		}
 	})
+	if u, f := rep.Counter("rand-functions-undecided:slow-large-values"), rep.Counter("rand-functions"); f > 0 && u*20 > f {
+		rep.Inconclusive("%d of %d generated functions stayed undecided (calls exceeding the budget while completed calls were slow)", u, f)
+	}
 	return rep.Finish(core.Evidence{
 		Evaluations: rep.Counter("rand-calls"),
 		Rule:        "typeprogs (incl. recursive types and types from other packages): every generated rand<ID>() is called N times (64 for small domains) under a seeded global source in the compiled package; each value is inspected by reflection (enum components among the exported constants, union components non-nil members, containers populated, gomacro-data:\"ignore\" and unexported fields zero), must vary when the type admits more than one value, and must survive the C02 JSON round trip; functions of programs with recursive types run one per process so that stack exhaustion is attributed. Distinct = distinct (function, number of distinct values).",
